@@ -16,6 +16,28 @@ CHECKS = {
         ref='DESIGN.md section 4 C13'),
 }
 
+CHECKS.update({
+    'C01': dict(
+        text='space.lincomb/multiply/divide and every element operator (+ - * / ** unary, in-place, reflected, scalar operands, zero/one/copy/assign/set_zero, power-space broadcasting) are executed with solver variables as entries, previous contents of out and scalars a, b (real, complex, integer); on every path of the size/dtype/contiguity dispatch tree (sizes straddling THRESHOLD_SMALL and, with generic scalars, THRESHOLD_MEDIUM as read from the module; C/F/strided/mixed layouts; 5 aliasing patterns; tensor, discretized, product and nested power spaces) z3 shows each output entry equal to the entry-wise formula over the pre-call values, operands unchanged, returned object is out, and no dependency on previous contents of out (NaN-taint).',
+        note='Trusted: symnp engine, BLAS axpy/scal/copy contract stubs in the >= T_M regime (validated against real BLAS by concrete shadow runs), z3; exact arithmetic over R/Z/C instead of floats.',
+        ref='DESIGN.md section 4 C01'),
+    'C03': dict(
+        text='For every operator recipe of an introspective registry (every concrete Operator class of odl must have a recipe or a stated not-encodable reason) the call protocol is executed on symbolic x and symbolic previous contents of out: op(x) in range, op(x,out=y) is y, y equals op(x) for all inputs and all previous contents (incl. the NaN-taint assertion), x keeps its terms, wrong-space input/out rejected before out is touched; wrappers additionally over an alias-returning leaf.',
+        note='Trusted: symnp engine, registry recipes (spaces of 2-12 entries), z3. Not encodable (listed): FFT, wavelet, ray transform, deformation, numerical derivatives.',
+        ref='DESIGN.md section 4 C03'),
+    'C05': dict(
+        text='For every linear operator recipe (built-ins x weightings x real/complex x options, expression classes, block operators, difference/resizing operators) and for enumerated expression trees over symbolic matrix leaves (depth <= 2 seeded subset quick, exhaustive + depth 3 seeded thorough; real/complex, plain/array-weighted) z3 decides inner(Ax,y) = inner(x,A*y) as a polynomial identity in x, y, scalars, vectors and matrix entries, using the real adjoint code and the real weighted inner products; A* maps range to domain; A.adjoint.adjoint(x) = A(x).',
+        note='Trusted: symnp engine, z3; spaces of 2-12 entries. Exempt as the property says: Resampling, ray transforms, deformation. Two known findings recorded (nodes_on_bdry adjoints; complex scalar times real-to-complex operator).',
+        ref='DESIGN.md section 4 C05'),
+    'C10': dict(
+        text='For every proximal factory with its options (data term, scalar/element step, symbolic lam/sigma), every functional recipe offering a proximal (incl. derived: translation, scalings, quadratic perturbation, separable sum, conjugate), operator-arithmetic wrappers over alias-safe leaves and the operator classes solvers apply in place, z3 shows that P(y,out=y) leaves exactly the terms of P(x) (abs/max/min/sign merged as if-then-else terms, so each configuration is one or few paths); solver call sites of the form op(v,out=v) are located by an AST scan and must be mapped.',
+        note='Trusted: symnp engine (merge mode), z3; 2-4 entries. Lambert W and exp/log are uninterpreted (sufficient for aliasing equalities).',
+        ref='DESIGN.md section 4 C10'),
+    'C16': dict(
+        text='resize_array and ResizingOperator are executed on arrays of solver variables for all (old length 1..5, new length 1..6, offset, 5 pad modes, 2 directions) in 1-d plus 2-d/3-d shape pairs; every output entry equals the index-map reference for all contents and pad constants, illegal combinations raise ValueError, inputs unchanged, out= honoured, crop-after-extend identity, forward/adjoint transposition, weighted adjoint identity, range grid contains the domain grid at the offset (also with nodes_on_bdry kwargs); the reference itself is cross-checked against numpy.pad concretely.',
+        note='Trusted: symnp engine, z3, the index-map oracle in harness/c16.py.',
+        ref='DESIGN.md section 4 C16'),
+})
 NOT_YET = {}
 
 
